@@ -276,6 +276,8 @@ pub struct RouteCase {
     pub cuts: u16,
     /// the first fragment is already in the connection's read buffer when the service is called
     pub prebuffered: bool,
+    /// real time passes between the fragments (these cases run on threads of their own)
+    pub pause: bool,
 }
 
 pub struct RouteOut {
@@ -283,6 +285,8 @@ pub struct RouteOut {
     pub log: Vec<String>,
     pub sig: u64,
     pub fragments: usize,
+    /// real-time pauses between fragments (server without a version-detection deadline)
+    pub pauses: usize,
 }
 
 pub async fn run_route(case: &RouteCase) -> RouteOut {
@@ -291,6 +295,8 @@ pub async fn run_route(case: &RouteCase) -> RouteOut {
     let app = App::new("c19b");
     let mut cfg = ConnCfg::new(role);
     cfg.combined = true;
+    // half of the cases run without a deadline for the version detection (time-out set to zero)
+    cfg.version_timeout_off = case.pause || (case.cuts.count_ones() + case.prebuffered as u32) % 2 == 1;
     if case.prebuffered {
         app.extra.borrow_mut().insert("prebuffer".into(), "1".into());
     }
@@ -303,19 +309,26 @@ pub async fn run_route(case: &RouteCase) -> RouteOut {
     app.log(Ev::PeerSent(format!("CONNECT(level {}) + PUBLISH + PINGREQ, cuts {:#06x}", case.level, case.cuts)));
     let mut start = 0usize;
     let mut fragments = 0usize;
+    let mut pauses = 0usize;
     for i in 0..15usize {
         if case.cuts & (1 << i) != 0 && i + 1 < stream.len() {
             c.peer.write_quiet(&stream[start..=i]);
             start = i + 1;
             fragments += 1;
             c.settle().await;
+            if case.pause {
+                // no deadline: real time may pass between the fragments
+                ntex_util::time::sleep(ntex_util::time::Millis(15)).await;
+                c.settle().await;
+                pauses += 1;
+            }
         }
     }
     c.peer.write_quiet(&stream[start..]);
     fragments += 1;
     c.settle().await;
     let _ = connect_len;
-    let mut o = RouteOut { violations: vec![], log: vec![], sig: 0, fragments };
+    let mut o = RouteOut { violations: vec![], log: vec![], sig: 0, fragments, pauses };
     let what = format!("{case:?}");
     let sink_ver = app.sink.borrow().as_ref().map(|s| if matches!(s, Sink::V5(_)) { 5 } else { 4 });
     if sink_ver != Some(case.level) {
@@ -854,37 +867,49 @@ pub fn run(opts: &Opts) -> i32 {
     let mut route_cases: Vec<RouteCase> = Vec::new();
     for level in [4u8, 5] {
         if quick {
-            route_cases.push(RouteCase { level, cuts: 0, prebuffered: false });
-            route_cases.push(RouteCase { level, cuts: 0, prebuffered: true });
+            route_cases.push(RouteCase { level, cuts: 0, prebuffered: false, pause: false });
+            route_cases.push(RouteCase { level, cuts: 0, prebuffered: true, pause: false });
             for a in 0..15 {
-                route_cases.push(RouteCase { level, cuts: 1 << a, prebuffered: false });
-                route_cases.push(RouteCase { level, cuts: 1 << a, prebuffered: true });
+                route_cases.push(RouteCase { level, cuts: 1 << a, prebuffered: false, pause: false });
+                route_cases.push(RouteCase { level, cuts: 1 << a, prebuffered: true, pause: false });
                 for b in a + 1..15 {
-                    route_cases.push(RouteCase { level, cuts: (1 << a) | (1 << b), prebuffered: (a + b) % 2 == 0 });
+                    route_cases.push(RouteCase { level, cuts: (1 << a) | (1 << b), prebuffered: (a + b) % 2 == 0, pause: false });
                 }
             }
             let mut rng = Rng::for_case(opts.seed, "c19b", level as u64);
             for _ in 0..1500 {
-                route_cases.push(RouteCase { level, cuts: rng.below(1 << 15) as u16, prebuffered: rng.bool() });
+                route_cases.push(RouteCase { level, cuts: rng.below(1 << 15) as u16, prebuffered: rng.bool(), pause: false });
             }
         } else {
             for cuts in 0..(1u32 << 15) {
-                route_cases.push(RouteCase { level, cuts: cuts as u16, prebuffered: false });
-                route_cases.push(RouteCase { level, cuts: cuts as u16, prebuffered: true });
+                route_cases.push(RouteCase { level, cuts: cuts as u16, prebuffered: false, pause: false });
+                route_cases.push(RouteCase { level, cuts: cuts as u16, prebuffered: true, pause: false });
             }
         }
     }
+    // fragments with real time passing in between, on a server without a version-detection deadline
+    let mut timed: Vec<RouteCase> = Vec::new();
+    for level in [4u8, 5] {
+        for a in 0..15 {
+            timed.push(RouteCase { level, cuts: 1 << a, prebuffered: a % 2 == 0, pause: true });
+        }
+        timed.push(RouteCase { level, cuts: 0b1001, prebuffered: false, pause: true });
+        timed.push(RouteCase { level, cuts: 0b100_0000_0010, prebuffered: true, pause: true });
+    }
+    let n_plain = route_cases.len();
+    route_cases.extend(timed);
     rep.extra("route_cases", json!(route_cases.len()));
-    pool::par_for(route_cases.len() as u64, None, |i| {
+    let run_b = |i: u64| {
         let case = &route_cases[i as usize];
         let r = exec(run_route(case));
         rep.eval();
-        let rj = json!({"part": "B", "level": case.level, "cuts": case.cuts, "prebuffered": case.prebuffered});
+        let rj = json!({"part": "B", "level": case.level, "cuts": case.cuts, "prebuffered": case.prebuffered, "pause": case.pause});
         match &r {
             Run::Done(o, _) => {
                 rep.distinct(o.sig);
                 rep.count("B_fragmentations", 1);
                 rep.max("B_max_fragments", o.fragments as u64);
+                rep.count("B_pauses_between_fragments_without_version_deadline", o.pauses as u64);
                 if i % 9973 == 0 {
                     rep.sample(2, || json!({"case": rj, "log": o.log}));
                 }
@@ -896,8 +921,12 @@ pub fn run(opts: &Opts) -> i32 {
             Run::Livelock(tail) => rep.violation(Violation { signature: "B: live-lock".into(), what: format!("never quiescent — {case:?}"), replay: json!({"case": rj, "log": tail}) }),
             Run::Watchdog => rep.inconclusive(format!("watchdog {case:?}")),
         }
-        r.after()
-    });
+        // (the timer wheel does not survive its runtime: a timed case retires its thread)
+        if case.pause { pool::After::RetireThread } else { r.after() }
+    };
+    pool::par_for(n_plain as u64, None, |i| run_b(i));
+    pool::par_for_n(16, (route_cases.len() - n_plain) as u64, None, |i| run_b(n_plain as u64 + i));
+    rep.require("B_pauses_between_fragments_without_version_deadline", 20);
     // sniffing codec differential (hook)
     #[cfg(feature = "hooks")]
     {
@@ -979,14 +1008,33 @@ pub fn run(opts: &Opts) -> i32 {
         }
         r.after()
     });
+    // ---- D: the keep-alive in force after acceptance, under real time (scenarios shared with C20)
+    let kd = if std::env::var("VERIF_SANITIZER").is_ok() { Vec::new() } else { keepalive_scenarios(opts.seed, quick) };
+    rep.extra("keepalive_scenarios", json!(kd.iter().map(|s| s.name.clone()).collect::<Vec<_>>()));
+    let (_, late) = super::c20::run_scns(&rep, opts, &kd, Some("D"));
+    if late.len() * 4 > kd.len() {
+        rep.inconclusive(format!("D: {} of {} timed scenarios undecided because the harness was late (machine overloaded?)", late.len(), kd.len()));
+    }
     rep.set_exhaustive(false);
-    rep.assume("the keep-alive period itself (1.5 x the client's value, override) is measured under real time in C20; here only its announcement in CONNACK is checked");
+    rep.assume("D: timer resolution of the runtime is 1 s: a keep-alive expiry is accepted from 0.5 s before to 3.5 s after the nominal time (the complete timing grid is C20's)");
     rep.assume("maximum packet size is probed 10 bytes below / above the negotiated value (boundary semantics are C09/C12's subject)");
     rep.require("A_accepted", 30);
     rep.require("A_ended_without_acceptance", 1000);
     rep.require("B_fragmentations", 200);
     rep.require("C_probe_Window", 500);
+    if !kd.is_empty() {
+        rep.require("D_expect_KeepAlive", 3);
+    }
     rep.finish()
+}
+
+/// part D: negotiated keep-alive in force (1.5 x, overridden, switched off by the handshake)
+fn keepalive_scenarios(seed: u64, quick: bool) -> Vec<super::c20::Scn> {
+    let mut rng = Rng::for_case(seed, "c20", 0);
+    super::c20::scenarios(quick, &mut rng)
+        .into_iter()
+        .filter(|s| s.role.is_server() && s.timeline.is_empty() && !s.raw && (s.name.contains("handshake") || s.name.contains("io-level") || s.name.ends_with("client keep-alive 2")))
+        .collect()
 }
 
 fn replay(path: &std::path::Path) -> i32 {
@@ -1032,7 +1080,7 @@ fn replay(path: &std::path::Path) -> i32 {
             }
         }
         "B" => {
-            let rc = RouteCase { level: case["level"].as_u64().unwrap_or(4) as u8, cuts: case["cuts"].as_u64().unwrap_or(0) as u16, prebuffered: case["prebuffered"].as_bool().unwrap_or(false) };
+            let rc = RouteCase { level: case["level"].as_u64().unwrap_or(4) as u8, cuts: case["cuts"].as_u64().unwrap_or(0) as u16, prebuffered: case["prebuffered"].as_bool().unwrap_or(false), pause: case["pause"].as_bool().unwrap_or(false) };
             println!("replaying {rc:?}");
             match exec(run_route(&rc)) {
                 Run::Done(o, _) => fail(&o.violations, &o.log),
@@ -1048,6 +1096,22 @@ fn replay(path: &std::path::Path) -> i32 {
             let lc = random_limit(&mut rng);
             println!("replaying {lc:?}");
             match exec(run_limit(&lc)) {
+                Run::Done(o, _) => fail(&o.violations, &o.log),
+                Run::Watchdog => 2,
+                _ => {
+                    println!("VIOLATION property=C19 replay={}", path.display());
+                    1
+                }
+            }
+        }
+        "D" => {
+            let name = case["name"].as_str().unwrap_or("");
+            let all = keepalive_scenarios(v["seed"].as_u64().unwrap_or(1), false);
+            let Some(s) = all.iter().find(|s| s.name == name) else {
+                println!("scenario {name:?} not found");
+                return 2;
+            };
+            match crate::explore::exec_with(super::c20::run_scn(s), 50_000_000, std::time::Duration::from_secs(120)) {
                 Run::Done(o, _) => fail(&o.violations, &o.log),
                 Run::Watchdog => 2,
                 _ => {
